@@ -141,12 +141,12 @@ def run(ctx):
     pairs = [["tiny12", "tiny13"]] if q else [["hel", "ack"], ["err0", "msg"], ["tiny12", "tiny13"], ["opn", "clo"], ["abort", "err"]]
     exh = [stream(cat, ["tiny12"], M, "all")] + [stream(cat, p, M, "near") for p in pairs] + [
         stream(cat, ["ack"], 28, "near"),                                       # size = maximum: accepted
-        stream(cat, ["tiny13"], M, "near", big=("bigmsg", M + 1, 16)),          # one byte above the maximum, cut short
-        stream(cat, ["err0"], 64, "near", big=("bighel", 65, 65)),              # oversize frame present in full
+        stream(cat, ["tiny13"], M, "edge", big=("bigmsg", M + 1, 16)),          # one byte above the maximum, cut short
+        stream(cat, ["err0"], 64, "edge", big=("bighel", 65, 65)),              # oversize frame present in full
         stream(cat, long1, M, "ones", run=100000), stream(cat, long3, M, "ones", run=100000, big=huge)]
     if not q:
         exh += [stream(cat, ["msg"], 100, "near", big=("bigerr", 70000, 9)), stream(cat, long2, M, "ones", run=100000),
-                stream(cat, ["hel", "ack", "msg"], M, "near"), stream(cat, ["tiny12", "err0", "tiny13"], M, "near")]
+                stream(cat, ["hel", "ack", "msg"], M, "edge"), stream(cat, ["tiny12", "err0", "tiny13"], M, "edge")]
     gen_dec("exh", exh, limit=1200 if q else 50000)
     # sampled by TLC simulation: long streams of real frames, segment sizes from KSet, runs of equal reads
     gen_dec("sim", [stream(cat, long1, M, "sample", run=64), stream(cat, long2, M, "sample", run=64),
@@ -169,7 +169,7 @@ def run(ctx):
     # exhaustive: every combination of writes that end 1 or 2 bytes into a chunk, in its middle, 1 byte before its end or at
     # its end (with one pending / zero answer anywhere for the one message scripts); single byte writes
     if q:
-        sexh = [script([m2], "near", idle=1), script([m1, m1], "near"), script([m2, m1], "ones", run=100000)]
+        sexh = [script([m1], "near", idle=1), script([m2], "near"), script([m1, m1], "near"), script([m2, m1], "ones", run=100000)]
     else:
         sexh = [script([m1], "near", idle=1), script([m2], "near", idle=1), script([m3], "near"), script([m1, m2], "near"),
                 script([m2, m2], "near"), script([m3, m1, m2], "ones", run=100000)]
